@@ -54,3 +54,119 @@ pub const KF_C04_MT935_T14: bool = false;
 pub const KF_C10_APPLICATIONHEADER_DISPLAY_DROPS_UNDOCUMENTED_SHAPE: bool = true;
 #[cfg(not(kani))]
 pub const KF_C10_APPLICATIONHEADER_DISPLAY_DROPS_UNDOCUMENTED_SHAPE: bool = false;
+#[cfg(kani)]
+pub const KF_C10_TRAILER_PARSE_DROPS_PDE: bool = true;
+#[cfg(not(kani))]
+pub const KF_C10_TRAILER_PARSE_DROPS_PDE: bool = false;
+#[cfg(kani)]
+pub const KF_C10_TRAILER_PARSE_DROPS_MRF: bool = true;
+#[cfg(not(kani))]
+pub const KF_C10_TRAILER_PARSE_DROPS_MRF: bool = false;
+#[cfg(kani)]
+pub const KF_C10_TRAILER_PARSE_DROPS_PDM: bool = true;
+#[cfg(not(kani))]
+pub const KF_C10_TRAILER_PARSE_DROPS_PDM: bool = false;
+#[cfg(kani)]
+pub const KF_C10_TRAILER_PARSE_DROPS_SYS: bool = true;
+#[cfg(not(kani))]
+pub const KF_C10_TRAILER_PARSE_DROPS_SYS: bool = false;
+#[cfg(kani)]
+pub const KF_C10_USERHEADER_WRONG_SHAPE_PARTLY_READ_423: bool = true;
+#[cfg(not(kani))]
+pub const KF_C10_USERHEADER_WRONG_SHAPE_PARTLY_READ_423: bool = false;
+#[cfg(kani)]
+pub const KF_C10_USERHEADER_WRONG_SHAPE_PARTLY_READ_106: bool = true;
+#[cfg(not(kani))]
+pub const KF_C10_USERHEADER_WRONG_SHAPE_PARTLY_READ_106: bool = false;
+#[cfg(kani)]
+pub const KF_C10_USERHEADER_WRONG_SHAPE_PARTLY_READ_165: bool = true;
+#[cfg(not(kani))]
+pub const KF_C10_USERHEADER_WRONG_SHAPE_PARTLY_READ_165: bool = false;
+#[cfg(kani)]
+pub const KF_C10_USERHEADER_WRONG_SHAPE_PARTLY_READ_433: bool = true;
+#[cfg(not(kani))]
+pub const KF_C10_USERHEADER_WRONG_SHAPE_PARTLY_READ_433: bool = false;
+#[cfg(kani)]
+pub const KF_C10_USERHEADER_WRONG_SHAPE_PARTLY_READ_434: bool = true;
+#[cfg(not(kani))]
+pub const KF_C10_USERHEADER_WRONG_SHAPE_PARTLY_READ_434: bool = false;
+#[cfg(kani)]
+pub const KF_C05_FIELD20_ACCEPTS_OUTSIDE_FORMAT: bool = true;
+#[cfg(not(kani))]
+pub const KF_C05_FIELD20_ACCEPTS_OUTSIDE_FORMAT: bool = false;
+#[cfg(kani)]
+pub const KF_C05_FIELD21F_ACCEPTS_OUTSIDE_FORMAT: bool = true;
+#[cfg(not(kani))]
+pub const KF_C05_FIELD21F_ACCEPTS_OUTSIDE_FORMAT: bool = false;
+#[cfg(kani)]
+pub const KF_C05_FIELD21NOOPTION_ACCEPTS_OUTSIDE_FORMAT: bool = true;
+#[cfg(not(kani))]
+pub const KF_C05_FIELD21NOOPTION_ACCEPTS_OUTSIDE_FORMAT: bool = false;
+#[cfg(kani)]
+pub const KF_C05_FIELD21R_ACCEPTS_OUTSIDE_FORMAT: bool = true;
+#[cfg(not(kani))]
+pub const KF_C05_FIELD21R_ACCEPTS_OUTSIDE_FORMAT: bool = false;
+#[cfg(kani)]
+pub const KF_C05_FIELD77T_ACCEPTS_OUTSIDE_FORMAT: bool = true;
+#[cfg(not(kani))]
+pub const KF_C05_FIELD77T_ACCEPTS_OUTSIDE_FORMAT: bool = false;
+#[cfg(kani)]
+pub const KF_C05_FIELD23_ACCEPTS_OUTSIDE_FORMAT: bool = true;
+#[cfg(not(kani))]
+pub const KF_C05_FIELD23_ACCEPTS_OUTSIDE_FORMAT: bool = false;
+#[cfg(kani)]
+pub const KF_C05_FIELD25A_ACCEPTS_OUTSIDE_FORMAT: bool = true;
+#[cfg(not(kani))]
+pub const KF_C05_FIELD25A_ACCEPTS_OUTSIDE_FORMAT: bool = false;
+#[cfg(kani)]
+pub const KF_C05_FIELD52C_ACCEPTS_OUTSIDE_FORMAT: bool = true;
+#[cfg(not(kani))]
+pub const KF_C05_FIELD52C_ACCEPTS_OUTSIDE_FORMAT: bool = false;
+#[cfg(kani)]
+pub const KF_C05_FIELD56C_ACCEPTS_OUTSIDE_FORMAT: bool = true;
+#[cfg(not(kani))]
+pub const KF_C05_FIELD56C_ACCEPTS_OUTSIDE_FORMAT: bool = false;
+#[cfg(kani)]
+pub const KF_C05_FIELD57C_ACCEPTS_OUTSIDE_FORMAT: bool = true;
+#[cfg(not(kani))]
+pub const KF_C05_FIELD57C_ACCEPTS_OUTSIDE_FORMAT: bool = false;
+#[cfg(kani)]
+pub const KF_C05_FIELD26T_ACCEPTS_OUTSIDE_FORMAT: bool = true;
+#[cfg(not(kani))]
+pub const KF_C05_FIELD26T_ACCEPTS_OUTSIDE_FORMAT: bool = false;
+#[cfg(kani)]
+pub const KF_C05_FIELD19_ACCEPTS_OUTSIDE_FORMAT: bool = true;
+#[cfg(not(kani))]
+pub const KF_C05_FIELD19_ACCEPTS_OUTSIDE_FORMAT: bool = false;
+#[cfg(kani)]
+pub const KF_C05_FIELD32B_ACCEPTS_OUTSIDE_FORMAT: bool = true;
+#[cfg(not(kani))]
+pub const KF_C05_FIELD32B_ACCEPTS_OUTSIDE_FORMAT: bool = false;
+#[cfg(kani)]
+pub const KF_C05_FIELD33B_ACCEPTS_OUTSIDE_FORMAT: bool = true;
+#[cfg(not(kani))]
+pub const KF_C05_FIELD33B_ACCEPTS_OUTSIDE_FORMAT: bool = false;
+#[cfg(kani)]
+pub const KF_C05_FIELD71F_ACCEPTS_OUTSIDE_FORMAT: bool = true;
+#[cfg(not(kani))]
+pub const KF_C05_FIELD71F_ACCEPTS_OUTSIDE_FORMAT: bool = false;
+#[cfg(kani)]
+pub const KF_C05_FIELD71G_ACCEPTS_OUTSIDE_FORMAT: bool = true;
+#[cfg(not(kani))]
+pub const KF_C05_FIELD71G_ACCEPTS_OUTSIDE_FORMAT: bool = false;
+#[cfg(kani)]
+pub const KF_C05_FIELD60F_ACCEPTS_OUTSIDE_FORMAT: bool = true;
+#[cfg(not(kani))]
+pub const KF_C05_FIELD60F_ACCEPTS_OUTSIDE_FORMAT: bool = false;
+#[cfg(kani)]
+pub const KF_C05_FIELD62F_ACCEPTS_OUTSIDE_FORMAT: bool = true;
+#[cfg(not(kani))]
+pub const KF_C05_FIELD62F_ACCEPTS_OUTSIDE_FORMAT: bool = false;
+#[cfg(kani)]
+pub const KF_C05_FIELD64_ACCEPTS_OUTSIDE_FORMAT: bool = true;
+#[cfg(not(kani))]
+pub const KF_C05_FIELD64_ACCEPTS_OUTSIDE_FORMAT: bool = false;
+#[cfg(kani)]
+pub const KF_C05_FIELD65_ACCEPTS_OUTSIDE_FORMAT: bool = true;
+#[cfg(not(kani))]
+pub const KF_C05_FIELD65_ACCEPTS_OUTSIDE_FORMAT: bool = false;
